@@ -209,6 +209,9 @@ def rule_d(ctx):
     # the broadcast that carries the event completes (polling discipline, slot hand-over): otherwise later events of that output never leave
     bcast.poll_rules(ctx, "output")
     bcast.output_slot_rules(ctx)
+    # a sink connected through any clone of the output is seen by the model's clone (shared connection list, epoch protocol: C14.d)
+    from . import c14
+    c14.rule_d(ctx)
 
 RULES = [
     ("C17.d", "port sends are awaited in place; fan-out visits each connection once per send", rule_d),
